@@ -209,6 +209,19 @@ func (s *Scratch) RunDriver(r *vf.Run, bin string, stdin []byte, args ...string)
 // Generate runs parse + IR + WriteSource for one spec into dir (package pkg). A panic anywhere is
 // returned as an error whose text starts with "PANIC".
 func Generate(spec []byte, opts gen.Options, dir, pkg string) (g *gen.Generator, err error) {
+	// goimports runs the go command; under load that subprocess can time out ("exec: WaitDelay
+	// expired before I/O complete"). That is the environment, not the generator: retry.
+	for try := 0; try < 4; try++ {
+		g, err = generateOnce(spec, opts, dir, pkg)
+		if err == nil || !strings.Contains(err.Error(), "exec:") {
+			return g, err
+		}
+		_ = os.RemoveAll(dir)
+	}
+	return g, err
+}
+
+func generateOnce(spec []byte, opts gen.Options, dir, pkg string) (g *gen.Generator, err error) {
 	defer func() {
 		if p := recover(); p != nil {
 			err = fmt.Errorf("PANIC: %v\n%s", p, tail(string(debug.Stack()), 3000))
